@@ -142,7 +142,7 @@ Record stable (I : h11p -> Prop) : Prop := {
   st_can_read : forall p b, I p -> I (set_can_read b p);
   st_parked : forall p b, I p -> I (set_parked b p);
   st_terminated : forall p b, I p -> I (set_terminated b p);
-  st_closed : forall p b, I p -> I (set_closed b p) }.
+  st_closed : forall p, I p -> I (set_closed true p) }.
 
 Lemma nonidle_keep l l' : (is_idle (their_state l') = true -> is_idle (their_state l) = true) ->
   is_idle (their_state l) = false -> is_idle (their_state l') = false.
